@@ -30,8 +30,9 @@ NONSRC = [".txt", ".o", ".C", ".H", ".CPP", ".py", "", ".c.bak", ".cc~", ".for",
 DIRNAMES = ["src", "include", "third-party", "build", "a b", "x[1]", "d*r", "q?", "!bang", "#hash", "sub", "deep", "lib.c", "Src",
             # names that mean something to shells, version control or path helpers but are ordinary directory names
             ".git", ".svn", ".hg", "~", "~root", "$HOME", "CVS", "node_modules", "...",
-            "src2", "src-old", "include2"]        # names that extend another directory's name
-BASENAMES = ["main", "util", "a b", "x[1]", "st*r", "q?x", "!neg", "#h", "foo", "Foo", "bar", ".hidden", "a.b", "-dash", "e2", "~", "$x", "%TEMP%"]
+            "src2", "src-old", "include2",        # names that extend another directory's name
+            "sub\rdir", "two\nparts"]               # control characters are legal in POSIX file names
+BASENAMES = ["main", "util", "a b", "x[1]", "st*r", "q?x", "!neg", "#h", "foo", "Foo", "bar", ".hidden", "a.b", "-dash", "e2", "~", "$x", "%TEMP%", "two\nlines", "cr\rname", "tab\tname"]
 
 
 def bounds(tier):
@@ -41,7 +42,7 @@ def bounds(tier):
 def required_cells(tier):
     cells = ["pat:anchored", "pat:dir-only", "pat:star", "pat:question", "pat:class", "pat:**/x", "pat:x/**", "pat:a/**/b",
              "pat:escape", "pat:trailing-space", "pat:comment", "pat:negation", "pat:reinclude-below-excluded-dir", "pat:none",
-             "pat:repeated-after-negation", "pat:leading-dot-slash", "multi-directory-code-base", "multi-directory:name-prefix-related",
+             "pat:repeated-after-negation", "pat:leading-dot-slash", "multi-directory-code-base", "multi-directory:name-prefix-related", "pat:absolute-path-of-the-root-as-prefix", "name:line-break-character",
              "link:file-inside", "link:dir-inside", "link:outside", "link:dangling", "link:chain",
              "spell:absolute", "spell:relative-root", "spell:relative-other-cwd", "spell:dot", "spell:dotdot", "spell:via-link",
              "member:yes", "member:no-extension", "member:no-excluded", "member:no-outside", "member:no-directory",
@@ -163,6 +164,11 @@ def gen_patterns(rng, tree):
         else:
             p = rng.choice(["", "  "])
             k = "comment"
+        if "\n" in p or "\r" in p:
+            p = "*" + os.path.splitext(base)[1] if "." in base else "*"      # (a pattern is one line of text)
+        if k == "anchored" and rng.random() < 0.15:
+            p = "@ROOT@" + p                    # replaced by the absolute path of the code-base directory at check time
+            feats.add("pat:absolute-path-of-the-root-as-prefix")
         pats.append(p)
         feats.add("pat:" + k if k != "name" else "pat:name")
         if k == "negation" and len(pats) >= 2 and rng.random() < 0.5:
@@ -172,6 +178,7 @@ def gen_patterns(rng, tree):
         elif k in ("name", "anchored", "star") and rng.random() < 0.08:
             pats[-1] = "./" + pats[-1].lstrip("/")      # a leading ./ is not special in a gitignore pattern
             feats.add("pat:leading-dot-slash")
+    pats = [p for p in pats if "\n" not in p and "\r" not in p]      # a pattern is one line of text
     if not pats:
         feats.add("pat:none")
     return pats, feats
@@ -241,7 +248,10 @@ def check_case(ctx, git, tree, patterns, feats, base, cls):
     rng = ctx.rng("spell" + str(len(tree["files"])) + str(len(patterns)))
     root = build(base, tree)
     realroot = os.path.realpath(root)
+    patterns = [p.replace("@ROOT@", realroot) for p in patterns]
     cells = set(feats)
+    if any("\n" in f or "\r" in f for f in tree["files"]):
+        cells.add("name:line-break-character")
     for k in tree["link_kinds"]:
         cells.add({"file-inside": "link:file-inside", "dir-inside": "link:dir-inside", "outside": "link:outside",
                    "dangling": "link:dangling", "chain": "link:chain"}[k])
@@ -427,7 +437,7 @@ def check_multi_directory(ctx, git, tree, patterns, root, realroot):
     if problems:
         p0 = problems[0]
         mech = None
-        if any("[[:" in p for p in patterns) or any(p.startswith("!") for p in patterns) or any(p.strip() == "!" for p in patterns):
+        if True:
             # the single-directory classifiers apply unchanged (same pattern semantics)
             if p0.get("query", "").startswith("list("):
                 mech = None
@@ -477,6 +487,15 @@ def classify(patterns, observed, problem):
         return "posix-character-class-in-pattern"
     if any(p.strip() == "!" for p in pats) and isinstance(observed, str) and "Error" in observed:
         return "lone-bang-pattern-raises"
+    if problem and problem.get("expected") is False and problem.get("reason") == "excluded" and problem.get("observed") is True \
+            and "\n" in str(problem.get("query", "")):
+        # git's wildcards (and the implicit "everything below a matched directory") match a line feed inside a name,
+        # pathspec's regular expressions (`.*` without DOTALL) do not
+        return "wildcard-does-not-match-newline-in-file-name"
+    if problem and str(problem.get("query", "")).startswith("list(") \
+            and isinstance(problem.get("observed"), list) and isinstance(problem.get("expected"), list) \
+            and set(problem["expected"]) < set(problem["observed"]) and all("\n" in x for x in set(problem["observed"]) - set(problem["expected"])):
+        return "wildcard-does-not-match-newline-in-file-name"
     if problem and problem.get("expected") is False and problem.get("reason") == "excluded" and problem.get("observed") is True:
         # git: a file below an excluded directory cannot be re-included (git itself reports a parent directory as ignored)
         if any(p.startswith("!") for p in pats) and problem.get("parent_dir_ignored"):
